@@ -18,13 +18,13 @@ Section EncMain.
 
   Definition ehead (d : deco) (n : list Z) : list Z := lead d ++ [37] ++ n ++ name_end d.
   Definition ehead2 (d : deco) (n : list Z) : list Z := n ++ name_end d.
-  Definition ewfopt (n : list Z) : Prop := wfo (aopt a) n /\ Forall (fun c => c <> 37) n.
+  Definition ewfopt (n : list Z) : Prop := wfo (aopt a) (araw a) n /\ hd 0 n <> 37.
 
   Theorem enc_roundtrip ds items :
     wf_items StEnc a items = true ->
     parse_tree StEnc a (print StEnc ds items) = (0, abs_items items).
   Proof.
-    apply (flat_roundtrip a FamEnc fe ehead ehead2 (wfo (asect a)) ewfopt) with (pr := print_enc) (code := 120).
+    apply (flat_roundtrip a FamEnc fe ehead ehead2 (wfe (asect a)) ewfopt) with (pr := print_enc) (code := 120).
     - (* option *)
       intros d n v rest s E prev PV [WN N37] WV RD. cbn [next_elem].
       destruct (enc_option a d n v rest s E prev (pok_not_end _ PV) WN N37 WV RD) as (s' & E1 & Q). exists s'. auto.
@@ -37,16 +37,15 @@ Section EncMain.
     - (* reopen *)
       intros d n rest s WN RD. cbn [next_elem]. unfold ehead2. rewrite <- app_assoc. now apply enc_reopen.
     - intros final s prev PV. cbn [next_elem]. apply enc_eof. now apply pok_not_end.
-    - intros n WN. apply (wo_len _ _ WN).
-    - intros n [WN _]. apply (wo_len _ _ WN).
+    - intros n WN. apply (we_len _ _ WN).
+    - intros n [WN _]. apply (wo_len _ _ _ WN).
     - reflexivity.
     - intros d n ks dc. cbn [print_enc]. unfold ehead. rewrite <- !app_assoc. reflexivity.
     - left; reflexivity.
     - split; reflexivity.
     - reflexivity.
-    - intros n W. destruct (wf_name_wfo StEnc (aopt a) n (or_introl eq_refl) W) as (A & B & _).
-      split; [exact A|]. apply (Forall_left _ _ _ B). intros X. now destruct X.
-    - intros n W. now destruct (wf_name_wfo StEnc (asect a) n (or_introl eq_refl) W) as (A & _).
+    - intros n W. exact (wf_name_wfo StEnc (araw a) (aopt a) n (or_introl eq_refl) W).
+    - intros n W. apply (wf_name_wfe StEnc (araw a)); [now left|exact W].
   Qed.
 
   Theorem enc_decoration_irrelevant d1 d2 items :
@@ -61,16 +60,14 @@ Section SepMain.
 
   Definition shead (d : deco) (n : list Z) : list Z := lead d ++ [91] ++ hws (d_mid1 d) ++ n ++ hws (d_mid2 d) ++ [93].
   Definition shead2 (d : deco) (n : list Z) : list Z := hws (d_mid1 d) ++ n ++ hws (d_mid2 d) ++ [93].
-  Definition swfopt (n : list Z) : Prop := wfo (aopt a) n /\ Forall (fun c => c <> 91) n.
+  Definition swfopt (n : list Z) : Prop := wfo (aopt a) (araw a) n /\ hd 0 n <> 91.
 
-  Lemma wfs_of n : wf_name StSep (asect a) n = true -> wfs a n.
+  Lemma wfs_of n : wf_name StSep RSec (araw a) (asect a) n = true -> wfs a n.
   Proof.
-    intros W. destruct (wf_name_wfo StSep (asect a) n (or_intror (or_introl eq_refl)) W) as ([NC NE NK NL] & _ & B).
-    constructor; auto.
-    assert (B' : Forall (fun c => c <> 91 /\ c <> 93) n) by (apply (Forall_left _ _ _ B); discriminate).
-    clear - NC B'. induction NC as [|c n Hc _ IH]; [constructor|].
-    inversion B' as [|? ? [H1 H2] B'']; subst. constructor; [|now apply IH].
-    unfold snc. rewrite Hc. apply negb_true_iff, Z.eqb_neq. exact H2.
+    intros W. destruct (wf_name_inv _ _ _ _ _ W) as (CO & NE & HF & HL & NK & NL & _).
+    constructor; auto. cbn [chars_ok] in CO. rewrite forallb_forall in CO.
+    apply Forall_forall. intros c IN. specialize (CO c IN). apply snc_spec.
+    unfold sname_char, byteb in CO. rewrite !andb_true_iff, !negb_true_iff, !Z.leb_le, !Z.eqb_neq in CO. lia.
   Qed.
 
   Theorem sep_roundtrip ds items :
@@ -87,14 +84,13 @@ Section SepMain.
     - intros d n rest s WN RD. cbn [next_elem]. unfold shead2. rewrite <- !app_assoc. now apply sep_reopen.
     - intros final s prev PV. cbn [next_elem]. now apply sep_eof.
     - intros n WN. apply (ws_len _ _ WN).
-    - intros n [WN _]. apply (wo_len _ _ WN).
+    - intros n [WN _]. apply (wo_len _ _ _ WN).
     - reflexivity.
     - intros d n ks dc. cbn [print_sep]. unfold shead. rewrite <- !app_assoc. reflexivity.
     - right; reflexivity.
     - split; reflexivity.
     - reflexivity.
-    - intros n W. destruct (wf_name_wfo StSep (aopt a) n (or_intror (or_introl eq_refl)) W) as (A & _ & B).
-      split; [exact A|]. eapply Forall_impl; [|apply (Forall_left _ _ _ B); discriminate]. intros c [H _]. exact H.
+    - intros n W. exact (wf_name_wfo StSep (araw a) (aopt a) n (or_intror (or_introl eq_refl)) W).
     - apply wfs_of.
   Qed.
 
@@ -113,16 +109,17 @@ Section EncDMain.
   Variable a : allow.
 
   Lemma encd_option d n v rest s E prev :
-    wfo (aopt a) n -> Forall (fun c => c <> 91) n -> wf_value v = true -> ready s E ->
+    wfo (aopt a) (araw a) n -> hd 0 n <> 91 -> wf_value v = true -> ready s E ->
     exists s',
       format_enc fed a prev (print_opt d n v ++ rest) s = ((match v with [] => 3 | _ => 7 end), rest, s') /\
       pelems (pth s') = E ++ [n] /\ pcurr s' = 11 /\ valid s' = len v /\
       (v <> [] -> post_read s' (len v) = Some v).
   Proof.
     intros WN N91 WV RD. unfold print_opt. rewrite <- !app_assoc.
-    destruct n as [|n0 n']; [now destruct (wo_ne _ _ WN)|].
-    pose proof (Forall_inv (wo_chars _ _ WN)) as H0. cbn beta in H0. apply onc_spec in H0 as H0'.
-    pose proof (Forall_inv N91) as H91. cbn beta in H91.
+    destruct n as [|n0 n']; [now destruct (wo_ne _ _ _ WN)|].
+    pose proof (Forall_inv (wo_chars _ _ _ WN)) as H0. cbn beta in H0. apply onb_spec in H0 as H0'.
+    pose proof (wo_first _ _ _ WN) as HS0. cbn [hd] in HS0.
+    pose proof N91 as H91. cbn [hd] in H91.
     unfold format_enc. change (sstart fed =? send fed) with false. cbv iota.
     unfold nextvis. rewrite (nextvis_go_ext fed dfmt_fed). cbn [app].
     destruct (nv_lead d (n0 :: n' ++ hws (d_mid1 d) ++ 61 :: hws (d_mid2 d) ++ print_value d v ++
@@ -147,7 +144,7 @@ Section EncDMain.
     eexists. reflexivity.
   Qed.
 
-  Definition dwfopt (n : list Z) : Prop := wfo (aopt a) n /\ Forall (fun c => c <> 91) n.
+  Definition dwfopt (n : list Z) : Prop := wfo (aopt a) (araw a) n /\ hd 0 n <> 91.
 
   Lemma encd_opts_only : forall dl,
     forallb (wf_item StEncD a O) (map strip dl) = true -> forallb is_opt (map strip dl) = true ->
@@ -157,9 +154,7 @@ Section EncDMain.
     cbn [map forallb] in W, O1. apply andb_true_iff in W, O1. destruct W as [W1 W2]. destruct O1 as [O1 O2].
     constructor; [|now apply IH].
     destruct i as [d n v|]; [|discriminate]. cbn [strip wf_item] in W1. apply andb_true_iff in W1. destruct W1 as [A B].
-    destruct (wf_name_wfo StEncD (aopt a) n (or_intror (or_intror eq_refl)) A) as (X & _ & Y).
-    split; [split; [exact X|]|exact B].
-    eapply Forall_impl; [|apply (Forall_left _ _ _ Y); discriminate]. intros c [H _]. exact H.
+    split; [exact (wf_name_wfo StEncD (araw a) (aopt a) n (or_intror (or_intror eq_refl)) A)|exact B].
   Qed.
 
   Theorem encd_roundtrip ds items :
@@ -179,7 +174,7 @@ Section EncDMain.
       auto using RoundMain.ready_init, RoundMain.okb_init.
     { intros d n v rest s E prev PV [WN N91] WV RD. cbn [next_elem].
       destruct (encd_option d n v rest s E prev WN N91 WV RD) as (s' & X & Q). exists s'. auto. }
-    { intros n [WN _]. apply (wo_len _ _ WN). }
+    { intros n [WN _]. apply (wo_len _ _ _ WN). }
     destruct (encd_eof final s1 prev1 R1) as (s2 & E2).
     assert (RN : floop (length dl + 1) FamEnc fed a PSection text pst_init builder_init = mkCres 0 [] s2 prev1 b1).
     { subst text. rewrite E1. unfold floop. cbn [config_loop next_elem]. rewrite E2. reflexivity. }
